@@ -225,13 +225,16 @@ class C06(Prop):
         "network (k-port LoopCombinatorStep with per-port checklists and the dot-product join, lock-step loop-when, k "
         "back-propagation and m output forwarders, m loop output steps, the terminator's join over the m outputs); every "
         "(input, output) projection is proved to move by the moves of Loop/NetG.v, for which both invariants are re-proved. "
-        "Statuses: the network models termination tokens of any status other than FAILED/CANCELLED alike (ATerm); the step and "
+        "Statuses: the network models COMPLETED and SKIPPED termination tokens (ATerm), the two statuses on which the "
+        "combinator step KEEPS its checklist (repo fix 754238f); FAILED, CANCELLED and RECOVERED (what InterWorkflowPort puts "
+        "on the ports of a recovery workflow) clear it, so that port is not read again: that path is modelled at step level "
+        "only (CombK.ckx_run, tied by cstep/ckstep cases with such tokens) and is outside the network theorems. The step and "
         "network theorems state the loop output step's final status as a function of the status [tst] the termination token "
         "carries -- COMPLETED, or SKIPPED, which is what the real engine delivers when no instance iterates (the loop-when step "
         "puts nothing on its output ports), observed on the engine and recorded in C06_loop_network_k_nonvacuous -- but which "
-        "of the two the wiring delivers is not derived in the model. FAILED/CANCELLED (the checklists are cleared: failure "
-        "path) are outside the model. Before the fix recorded in known/C06.txt the combinator step cleared its checklist on "
-        "SKIPPED too, and a loop with an input coming from a skipped conditional step hung. Other scope limits: "
+        "of the two the wiring delivers is not derived in the model. Before the fixes recorded in known/C06.txt the "
+        "combinator step cleared its checklist on SKIPPED too, and a loop with an input coming from a skipped conditional "
+        "step hung. Other scope limits: "
         "a body and forwarders emitting one token per token with the same tag, a deterministic body, instances of equal tag "
         "depth, loop variables that all enter the combinator (valueFrom/default transformers on loop inputs not modelled). "
         "Tied to the code by correspondence: loop output steps, LoopCombinatorStep with 1, 2 and 3 ports, LoopCombinator "
@@ -246,7 +249,8 @@ class C06(Prop):
             "before completion, duplicated or missing iteration-termination tokens, single-component tags, several "
             "statuses (model fidelity only); retag: real LoopCombinator fed interleaved instances and iterations; cstep: real LoopCombinatorStep fed "
             "interleaved instance / looped-back / iteration-termination tokens with the termination token early or late, "
-            "well-formed or with junk; when: real CWLLoopConditionalStep with a JS condition, output vs skip port; ckstep: real LoopCombinatorStep with 2 or 3 "
+            "well-formed or with junk, termination tokens COMPLETED / SKIPPED (checklist kept) and RECOVERED / FAILED / CANCELLED "
+            "(checklist cleared: the port is not read again); when: real CWLLoopConditionalStep with a JS condition, output vs skip port; ckstep: real LoopCombinatorStep with 2 or 3 "
             "input ports (k loop variables) fed interleaved per-port sequences; when2: real CWLLoopConditionalStep with two "
             "input ports fed the same tag sequence in arbitrary interleavings (one token from each port per turn); wf: CWL "
             "workflows (loop inside scatter or plain loop, ExpressionTool body, one or two back-propagated loop variables) run by the real engine. Non-trivial = a "
@@ -352,6 +356,20 @@ class C06(Prop):
                 arr.append(["T", rng.choice(sts)])
         return {"f": "raw", "pol": rng.choice(["all", "last"]), "arr": arr}
 
+    CLEARING = ("FAILED", "CANCELLED", "RECOVERED")     # statuses on which the combinator step clears the checklist
+
+    def _term(self, rng):
+        """a termination-token entry: COMPLETED mostly, SKIPPED (keeps the checklist), sometimes RECOVERED / FAILED /
+        CANCELLED (clear it: the port is not read again)"""
+        r = rng.random()
+        if r < 0.5:
+            return ["T"]
+        if r < 0.75:
+            return ["T", "SKIPPED"]
+        if r < 0.92:
+            return ["T", "RECOVERED"]
+        return ["T", rng.choice(["FAILED", "CANCELLED"])]
+
     def _cstep(self, rng):
         """tokens reaching the LoopCombinatorStep: per instance p the token p, the looped-back tokens p.0 .. p.(k-1),
         then IterationTermination(p); instances interleaved; the external termination token somewhere after the
@@ -368,7 +386,7 @@ class C06(Prop):
         arr, term_put = [], False
         while any(seqs):
             if firsts_left == 0 and not term_put and rng.random() < 0.3:
-                arr.append(["T"] if rng.random() < 0.6 else ["T", "SKIPPED"])
+                arr.append(self._term(rng))
                 term_put = True
                 continue
             s = rng.choice([s for s in seqs if s])
@@ -376,7 +394,7 @@ class C06(Prop):
                 firsts_left -= 1
             arr.append(s.pop(0))
         if not term_put and (wf or rng.random() < 0.7):
-            arr.append(["T"] if rng.random() < 0.6 else ["T", "SKIPPED"])
+            arr.append(self._term(rng))
         if not wf:
             for _ in range(rng.randrange(1, 4)):
                 junk = rng.choice([["I", self._prefix(rng, depth)], ["E", self._prefix(rng, depth) + ".0"], ["T"],
@@ -402,7 +420,7 @@ class C06(Prop):
             while any(per_inst):
                 q = rng.choice([q for q in per_inst if q])
                 port.append(q.pop(0))
-            port.insert(rng.randrange(len(ps), len(port) + 1), ["T"] if rng.random() < 0.6 else ["T", "SKIPPED"])
+            port.insert(rng.randrange(len(ps), len(port) + 1), self._term(rng))
             if rng.random() < 0.25:
                 port.insert(rng.randrange(0, len(port) + 1), rng.choice([["I", self._prefix(rng, depth)], ["T"],
                                                                        ["E", rng.choice(ps) + ".0"]]))
@@ -856,7 +874,7 @@ class C06(Prop):
         if c["f"] == "cstep":
             if o.get("err"):
                 return ("step-raises", f"loop combinator step raised {o['err']}")
-            if c["wf"]:
+            if c["wf"] and not any(a[0] == "T" and len(a) > 1 and a[1] in self.CLEARING for a in c["arr"]):
                 fed = c["arr"][:o["fed"]]
                 started = [a[1] for a in fed if a[0] == "E" and a[1] in c["insts"]]
                 ended = [a[1] for a in fed if a[0] == "I"]
@@ -869,7 +887,7 @@ class C06(Prop):
             if o.get("err"):
                 return ("step-raises", f"k-port loop combinator step raised {o['err']}")
             fed = [c["arr"][i] for i in o["fed"]]
-            if o["fin"]:      # run() returned: every port must have terminated with an empty checklist
+            if o["fin"]:      # run() returned: every port must have delivered a termination token
                 for i in range(c["k"]):
                     mine = [a for a in fed if a[0] == i]
                     if not any(a[1] == "T" for a in mine):
@@ -922,20 +940,34 @@ class C06(Prop):
         if c["f"] == "cstep":
             if o.get("err") or not all(TAG.match(a[1]) for a in c["arr"] if a[0] != "T"):
                 return None
-            if any(a[0] == "T" and len(a) > 1 and a[1] in ("FAILED", "CANCELLED") for a in c["arr"]):
-                return None      # the failure path (checklist cleared) is outside the model
             arr = c["arr"][:o["fed"]]
+            if any(a[0] == "T" and len(a) > 1 and a[1] in self.CLEARING for a in c["arr"]):
+                # with a termination token that clears the checklist: the step-level k-port model with k = 1
+                def px(a):
+                    if a[0] == "T":
+                        return "(0%nat, XClear)" if len(a) > 1 and a[1] in self.CLEARING else "(0%nat, XA ATerm)"
+                    return f"(0%nat, XA {coq_atok(a)})"
+                return (f"CCombKX 1%nat {coq_list([px(a) for a in arr])} "
+                        f"{coq_list([coq_list([coq_atok(a) for a in o['out']])])} {'true' if o['fin'] else 'false'}")
             return (f"CCombStep {coq_list([coq_atok(a) for a in arr])} {coq_list([coq_atok(a) for a in o['out']])} "
                     f"{'true' if o['fin'] else 'false'}")
         if c["f"] == "ckstep":
             if o.get("err") or not all(TAG.match(a[2]) for a in c["arr"] if a[1] != "T"):
                 return None
             arr = [c["arr"][i] for i in o["fed"]]
+            clearing = any(a[1] == "T" and len(a) > 2 and a[2] in self.CLEARING for a in c["arr"])
+
             def pa(a):
-                tokc = "ATerm" if a[1] == "T" else coq_atok([a[1], a[2]])
+                if a[1] == "T":
+                    tokc = "XClear" if len(a) > 2 and a[2] in self.CLEARING else "ATerm"
+                else:
+                    tokc = coq_atok([a[1], a[2]])
+                if clearing and tokc != "XClear":
+                    tokc = f"XA {tokc}"
                 return f"({a[0]}%nat, {tokc})"
             outs = coq_list([coq_list([coq_atok(x) for x in port]) for port in o["outs"]])
-            return f"CCombK {c['k']}%nat {coq_list([pa(a) for a in arr])} {outs} {'true' if o['fin'] else 'false'}"
+            ctor = "CCombKX" if clearing else "CCombK"
+            return f"{ctor} {c['k']}%nat {coq_list([pa(a) for a in arr])} {outs} {'true' if o['fin'] else 'false'}"
         if c["f"] == "when2":
             if o.get("err") or len({t for t, _ in c["toks"]}) != len(c["toks"]):
                 return None
